@@ -863,6 +863,7 @@ struct Planter<'a> {
     scope: Vec<String>, // current impl/trait key prefix
     drop_bodies: &'a BTreeSet<String>,
     keep_only: &'a Option<BTreeSet<String>>,
+    nohint: &'a BTreeSet<String>,
     ext_types: &'a BTreeSet<String>,
     module: String,
     seen_fns: Vec<(String, usize)>, // key, source line
@@ -928,7 +929,11 @@ impl<'a> Planter<'a> {
             let t = ty.clone();
             *ty = parse_quote!(vp_ret!(#t));
         }
-        if !(dropb && has_body) && has_body {
+        let skip_hints = self.nohint.contains(key) || self.nohint.contains(&qkey);
+        if skip_hints {
+            self.log.push(format!("NOHINT {}: proof hints not injected (fallback after a tool error inside this function)", key));
+        }
+        if !(dropb && has_body) && has_body && !skip_hints {
             // loops
             let mut lp = LoopPlanter { ord: 0, fc: &fc, markers: vec![], used: BTreeSet::new() };
             lp.visit_block_mut(block);
@@ -1435,6 +1440,7 @@ fn main() {
     let asref_methods: BTreeSet<String> = cfg["asref_key_methods"].as_array().unwrap().iter().map(|v| v.as_str().unwrap().to_string()).collect();
     let drop_bodies: BTreeSet<String> = cfg["drop_bodies"].as_array().unwrap().iter().map(|v| norm(v.as_str().unwrap())).collect();
     let keep_only: Option<BTreeSet<String>> = cfg["keep_only"].as_array().map(|a| a.iter().map(|v| norm(v.as_str().unwrap())).collect());
+    let nohint: BTreeSet<String> = cfg["nohint_fns"].as_array().map(|a| a.iter().map(|v| norm(v.as_str().unwrap())).collect()).unwrap_or_default();
     let ext_types: BTreeSet<String> = cfg["external_body_types"].as_array().map(|a| a.iter().map(|v| v.as_str().unwrap().to_string()).collect()).unwrap_or_default();
     let drop_fns: BTreeSet<String> = cfg["drop_fns"].as_array().map(|a| a.iter().map(|v| norm(v.as_str().unwrap())).collect()).unwrap_or_default();
     let drop_items: BTreeSet<String> = cfg["drop_items"].as_array().unwrap().iter().map(|v| norm(v.as_str().unwrap())).collect();
@@ -1609,6 +1615,7 @@ fn main() {
             scope: vec![],
             drop_bodies: &drop_bodies,
             keep_only: &keep_only,
+            nohint: &nohint,
             ext_types: &ext_types,
             module: module.to_string(),
             seen_fns: vec![],
@@ -1681,10 +1688,8 @@ fn main() {
     let out = json!({"rules": log_all, "lost": lost, "functions": fn_index, "dropped": dropped_log,
                      "literals": lits.iter().map(|(k, v)| (k.clone(), json!(String::from_utf8_lossy(v)))).collect::<BTreeMap<_, _>>()});
     fs::write(format!("{}/extract_log.json", out_dir), serde_json::to_string_pretty(&out).unwrap()).unwrap();
-    if !lost.is_empty() {
-        for l in &lost {
-            eprintln!("{}", l);
-        }
-        std::process::exit(3);
+    // lost anchors do not stop the run: the driver treats failures inside the affected functions as UNDECIDED
+    for l in &lost {
+        eprintln!("{}", l);
     }
 }
